@@ -16,7 +16,9 @@ From Coq Require Import List NArith PArith Bool Arith FMapPositive Permutation.
 From OxiVerif Require Import DD.Table DD.TableProofs DD.Canon DD.Sem DD.Build DD.BuildProofs
   DD.Apply DD.ApplyProofs DD.ApplyEvalProofs DD.Quant DD.QuantSpecProofs DD.QuantLemmas
   DD.QuantProofs DD.RestrictProofs DD.SubstProofs DD.ApplyQuantProofs DD.QuantTopProofs
-  DD.QuantHistory DD.QuantExamples.
+  DD.QuantHistory DD.QuantExamples
+  DD.ApplyBcdd DD.ApplyBcddProofs DD.ApplyBcddEval DD.QuantBcdd DD.QuantBcddLemmas DD.QuantBcddProofs
+  DD.ApplyQuantBcddProofs DD.RestrictBcddProofs DD.SubstBcddProofs DD.QuantBcddTop DD.QuantBcddExamples.
 Import ListNotations.
 
 (** ** Entry points against the spec layer *)
@@ -224,6 +226,102 @@ Theorem C04_cube_chain : forall s, BddOK s -> forall n r M0,
 Proof. exact cube_chain. Qed.
 Print Assumptions C04_cube_chain.
 
+(** ** The complement-edge kind (BCDD): models in DD/QuantBcdd.v after
+    complement_edge/apply_rec.rs; [cbfun_of] = the function an edge denotes,
+    [is_varsetC] / [is_cubeC] / [QCacheOKC] / [lossyC] as for the plain kind *)
+
+(** exists / forall / unique ([q] = the quantifier; [qfun q] = or / and / xor) *)
+Theorem C04_bcdd_quant : forall lt C cget cadd, lossyC cget cadd -> forall Sg q s (c : C) f vars,
+  BcOK s -> QCacheOKC cget Sg s c -> ref_ok s (eref f) -> ref_ok s (eref vars) ->
+  exists s' c' r, cquant_edge lt C cget cadd s c q f vars = Some (s', c', r) /\
+    BcOK s' /\ extends s s' /\ QCacheOKC cget Sg s' c' /\ ref_ok s' (eref r) /\
+    forall vs, (forall v, In v vs -> v < nlevels s) -> is_varsetC s vars vs -> (q = QUnique -> NoDup vs) ->
+    forall a, cbfun_of s' r a = quant (qfun q) vs (cbfun_of s f) a.
+Proof. exact cquant_edge_sound. Qed.
+Print Assumptions C04_bcdd_quant.
+
+(** apply_forall / apply_exists / apply_unique through [apply_quant_dispatch::<Q, QN>] and
+    [apply_quant_unique_dispatch] (incl. [UniqueNand]), all 8 operators *)
+Theorem C04_bcdd_apply_quant : forall lt C cget cadd, lossyC cget cadd -> forall Sg q op s (c : C) f g vars,
+  BcOK s -> QCacheOKC cget Sg s c -> ref_ok s (eref f) -> ref_ok s (eref g) -> ref_ok s (eref vars) ->
+  exists s' c' r, capply_quant_edge lt C cget cadd s c q op f g vars = Some (s', c', r) /\
+    BcOK s' /\ extends s s' /\ QCacheOKC cget Sg s' c' /\ ref_ok s' (eref r) /\
+    forall vs, (forall v, In v vs -> v < nlevels s) -> is_varsetC s vars vs -> (q = QUnique -> NoDup vs) ->
+    forall a, cbfun_of s' r a = quant (qfun q) vs (lift2 op (cbfun_of s f) (cbfun_of s g)) a.
+Proof. exact capply_quant_edge_sound. Qed.
+Print Assumptions C04_bcdd_apply_quant.
+
+(** restrict with the [f_neg] / [vars_neg] polarity tracking *)
+Theorem C04_bcdd_restrict : forall C cget cadd, lossyC cget cadd -> forall Sg s (c : C) f vars,
+  BcOK s -> QCacheOKC cget Sg s c -> ref_ok s (eref f) -> ref_ok s (eref vars) ->
+  exists s' c' r, crestrict_edge C cget cadd s c f vars = Some (s', c', r) /\
+    BcOK s' /\ extends s s' /\ QCacheOKC cget Sg s' c' /\ ref_ok s' (eref r) /\
+    forall lits, NoDup (map fst lits) -> (forall p, In p lits -> fst p < nlevels s) -> is_cubeC s vars lits ->
+    forall a, cbfun_of s' r a = restrict_s lits (cbfun_of s f) a.
+Proof. exact crestrict_edge_sound. Qed.
+Print Assumptions C04_bcdd_restrict.
+
+(** substitute *)
+Theorem C04_bcdd_substitute : forall lt C cget cadd, lossyC cget cadd -> forall Sg s (c : C) f pairs id,
+  BcOK s -> QCacheOKC cget Sg s c -> ref_ok s (eref f) -> NoDup (map fst pairs) ->
+  (forall v r, In (v, r) pairs -> v < nlevels s /\ ref_ok s (eref r)) -> Sg id = Some pairs ->
+  exists s' c' r, csubstitute_edge lt C cget cadd s c f pairs id = Some (s', c', r) /\
+    BcOK s' /\ extends s s' /\ QCacheOKC cget Sg s' c' /\ ref_ok s' (eref r) /\
+    forall a, cbfun_of s' r a =
+              subst_s (map (fun p => (fst p, cbfun_of s (snd p))) pairs) (cbfun_of s f) a.
+Proof. exact csubstitute_edge_sound. Qed.
+Print Assumptions C04_bcdd_substitute.
+
+Theorem C04_bcdd_subst_register : forall C (cget : C -> N -> list edge -> option edge) Sg s c id pairs,
+  QCacheOKC cget Sg s c -> Sg id = None -> QCacheOKC cget (csg_add Sg id pairs) s c.
+Proof. exact qcacheokc_register. Qed.
+Print Assumptions C04_bcdd_subst_register.
+
+Theorem C04_bcdd_subst_fresh_no_entry : forall C (cget : C -> N -> list edge -> option edge) Sg s c id f r,
+  QCacheOKC cget Sg s c -> Sg id = None -> cget c (ccode_subst id) [f] = Some r -> False.
+Proof. exact cfresh_id_no_entry. Qed.
+Print Assumptions C04_bcdd_subst_fresh_no_entry.
+
+(** the recursive algorithms, any sufficient fuel *)
+Theorem C04_bcdd_quant_rec_ok : forall lt C cget cadd, lossyC cget cadd -> forall Sg q fuel s (c : C) f vars phi L,
+  BcOK s -> QCacheOKC cget Sg s c -> DenC s f phi -> ref_ok s (eref vars) -> VChainC s vars L ->
+  nlevels s - rlevel s (eref f) < fuel ->
+  qcresult_ok cget Sg s (cquant_rec lt C cget cadd fuel s c q f vars) (qlevs (qf q) L phi).
+Proof. exact cquant_rec_ok. Qed.
+Print Assumptions C04_bcdd_quant_rec_ok.
+
+Theorem C04_bcdd_apply_quant_ok : forall lt C cget cadd, lossyC cget cadd -> forall Sg q o k,
+  caqcode q o = Some k -> forall fuel s (c : C) f g vars phi psi L,
+  BcOK s -> QCacheOKC cget Sg s c -> DenC s f phi -> DenC s g psi -> ref_ok s (eref vars) -> VChainC s vars L ->
+  nlevels s - Nat.min (rlevel s (eref f)) (rlevel s (eref g)) < fuel ->
+  qcresult_ok cget Sg s (capply_quant lt C cget cadd fuel s c q o f g vars)
+              (qlevs (qf q) L (fun c0 => aqeval o (phi c0) (psi c0))).
+Proof. exact capply_quant_ok. Qed.
+Print Assumptions C04_bcdd_apply_quant_ok.
+
+Theorem C04_bcdd_restrict_ok : forall C cget cadd, lossyC cget cadd -> forall Sg fuel s (c : C) f vars phi M,
+  BcOK s -> QCacheOKC cget Sg s c -> DenC s f phi -> ref_ok s (eref vars) ->
+  LChainC s (eref vars) (etag vars) M -> nlevels s - rlevel s (eref f) < fuel ->
+  qcresult_ok cget Sg s (crestrict C cget cadd fuel s c f vars) (restr M phi).
+Proof. exact crestrict_ok. Qed.
+Print Assumptions C04_bcdd_restrict_ok.
+
+Theorem C04_bcdd_substitute_ok : forall lt C cget cadd, lossyC cget cadd ->
+  forall Sg fuel s (c : C) f sv id pairs phi,
+  BcOK s -> QCacheOKC cget Sg s c -> DenC s f phi -> SvOKC s sv pairs -> Sg id = Some pairs ->
+  nlevels s - rlevel s (eref f) < fuel ->
+  qcresult_ok cget Sg s (csubstitute lt C cget cadd fuel s c f sv id) (psubstC s pairs phi).
+Proof. exact csubstitute_ok. Qed.
+Print Assumptions C04_bcdd_substitute_ok.
+
+(** an edge denoting a cube has that cube as the chain [restrict]'s polarity-tracking walk reads *)
+Theorem C04_bcdd_cube_chain : forall s, BcOK s -> forall n r neg M0,
+  nlevels s - rlevel s r < n -> DenC s (mkEdge r neg) (cubeL M0) -> NoDup (map fst M0) ->
+  (forall p, In p M0 -> fst p < nlevels s) ->
+  exists M, LChainC s r neg M /\ Permutation M M0.
+Proof. exact cube_chainC. Qed.
+Print Assumptions C04_bcdd_cube_chain.
+
 (** ** Spec-layer laws *)
 
 (** order of the variable list (or, and, xor) *)
@@ -345,3 +443,9 @@ Definition C04_pin_run_apply_quant := ex_apply_quant.
 Definition C04_pin_run_substitute := ex_substitute.
 Definition C04_pin_run_history := ex_history.
 Definition C04_pin_history_inv := ex_history_inv.
+Definition C04_pin_bcdd_hyps := ex_bcdd_quant_hyps.
+Definition C04_pin_bcdd_subst_hyps := ex_bcdd_subst_hyps.
+Definition C04_pin_bcdd_run_quant := ex_c_quant.
+Definition C04_pin_bcdd_run_restrict := ex_c_restrict.
+Definition C04_pin_bcdd_run_apply_quant := ex_c_apply_quant.
+Definition C04_pin_bcdd_run_substitute := ex_c_substitute.
